@@ -196,7 +196,8 @@ func normalizeStatement(
 
 	normalizeChildren := func(children []*sysl.Statement, parentIndex []int) error {
 		for i, child := range children {
-			err := normalizeStatement(ctx, s, app, ep, child, append(parentIndex, i))
+			// copy the path: appending in place would let siblings share (and overwrite) storage
+			err := normalizeStatement(ctx, s, app, ep, child, append(append([]int{}, parentIndex...), i))
 			if err != nil {
 				return err
 			}
@@ -259,7 +260,7 @@ func normalizeStatement(
 		// and recurse on their children.
 		for i, choice := range stmt.GetAlt().Choice {
 			statement = stmtSkeleton()
-			statement.StmtIndex = append(statement.StmtIndex, i)
+			statement.StmtIndex = append(append([]int{}, stmtIndex...), i)
 			statement.StmtAlt = tuple{"choice": choice.Cond}
 			if err := normalizeChildren(choice.Stmt, statement.StmtIndex); err != nil {
 				return err
